@@ -29,7 +29,7 @@ let pred id : z -> z -> bool = fun kz vz ->
   | 4 -> v mod 3 = 0
   | 5 -> (k + v) land 1 = 1
   | 6 -> k land 3 = 0
-  | _ -> k < 4
+  | _ -> if id >= 1000 then k < id - 1000 else k < 4
 
 let order_of_int = function
   | 0 -> VLR | 1 -> VRL | 2 -> LVR | 3 -> RVL | 4 -> LRV | 5 -> RLV | 6 -> Ascending | 7 -> Descending
@@ -116,7 +116,7 @@ let field s name =
 let is_api_query op0 toks =
   match op0 with
   | "P" | "D" | "Dm" | "DM" | "DA" | "Sz" | "E" | "G" | "Mn" | "Mx" | "F" | "C" | "Sel" | "R" | "Rg" | "RS"
-  | "All" | "AS" | "Any" | "Allm" | "Sm" | "Pm" | "Eq" | "RgK" | "SmK" | "PmK" | "Chk" | "Scr" -> true
+  | "All" | "AS" | "Any" | "Allm" | "Sm" | "Pm" | "Eq" | "RgK" | "SmK" | "PmK" | "Chk" | "Scr" | "SW" | "SWP" -> true
   | "T" | "TS" -> (match ios toks.(1) with 2 | 3 | 6 | 7 -> true | _ -> false)
   | _ -> false
 
@@ -191,6 +191,15 @@ let () =
             | "R" -> run_op (Q (QRank (zi 1)))
             | "Rg" -> run_op (Q (QRange (zi 1, zi 2)))
             | "RS" -> run_op (Q (QRangeSize (zi 1, zi 2)))
+            | "SW" ->
+              (match selectMatch cmp impl (pred (ios toks.(1))) !st with
+               | Ok t' -> st := t'; list_s (inorder t')
+               | Panic -> dead := true; "PANIC" | Hang -> dead := true; "HANG")
+            | "SWP" ->
+              let (m, u) = partitionMatch cmp impl (pred (ios toks.(1))) !st in
+              (match (if ios toks.(2) = 1 then u else m) with
+               | Ok t' -> st := t'; list_s (inorder t')
+               | Panic -> dead := true; "PANIC" | Hang -> dead := true; "HANG")
             | "RgK" -> let e = run_op (Q (QRange (zi 1, zi 2))) in kept := e :: !kept; e
             | "SmK" -> let e = run_op (Q (QSelectMatch (pred (ios toks.(1))))) in kept := e :: !kept; e
             | "PmK" -> let e = run_op (Q (QPartitionMatch (pred (ios toks.(1))))) in kept := e :: !kept; e
